@@ -256,6 +256,9 @@ def _concat_parts(e: ast.AST) -> list[ast.AST]:
     return [e]
 
 
+SIGNATURE_MODE = [False]   # set while effect signatures are built: value-preserving conversions are transparent
+
+
 class PolyEnv:
     """Converts expressions to polynomials.
 
@@ -327,6 +330,15 @@ class PolyEnv:
                     return self.poly(e.left).scale(2 ** int(r.const_value()))
                 return self.atom(e)
             return self.atom(e)
+        if isinstance(e, ast.NamedExpr):
+            return self.poly(e.value)
+        if SIGNATURE_MODE[0] and isinstance(e, ast.Call) and dotted(e.func) in ("np.asarray", "np.asanyarray") and len(e.args) == 1 and not e.keywords:
+            return self.poly(e.args[0])   # the array itself (a list becomes an array: not a difference a definition speaks about)
+        if isinstance(e, ast.Subscript) and isinstance(e.value, ast.Call) and dotted(e.value.func) == "divmod" and len(e.value.args) == 2 \
+                and isinstance(e.slice, ast.Constant) and e.slice.value in (0, 1):
+            # divmod(a, b)[0] is a // b and [1] is a % b
+            a_, b_ = e.value.args
+            return self.poly(ast.BinOp(left=a_, op=ast.FloorDiv() if e.slice.value == 0 else ast.Mod(), right=b_))
         if isinstance(e, ast.Subscript) and isinstance(e.value, ast.ListComp) and len(e.value.generators) == 1 and not e.value.generators[0].ifs \
                 and isinstance(e.value.generators[0].target, ast.Name) and isinstance(e.value.generators[0].iter, ast.Call) \
                 and dotted(e.value.generators[0].iter.func) == "range" and len(e.value.generators[0].iter.args) == 1 and not isinstance(e.slice, (ast.Slice, ast.Tuple)):
